@@ -73,6 +73,24 @@ class SpecMixin(object):
           if key[0] == p:
             st.heap[key] = fresh('H_%s_%s' % key, st.heap[key].sort())
         continue
+      if p.startswith('owned('):
+        # the contents of every container owned by that (class, field) slot (and their hidden key lists)
+        tag = self.owned_tag(p)
+        ctag = z3.Function('container_tag', z3.IntSort(), z3.IntSort())
+        kown = z3.Function('keylist_owner', z3.IntSort(), z3.IntSort())
+        probe = VRef('list', z3.IntVal(0))
+        self.list_len(st, probe), self.list_items(st, probe), self.dict_dom(st, probe), self.dict_val(st, probe)
+        r = z3.Int('ow_r')
+        inside = z3.Or(ctag(r) == tag, z3.And(ctag(r) == -1, ctag(kown(r)) == tag))
+        self.drop_keypos(st)
+        for key in (('list', 'len'), ('list', 'items'), ('dict', 'dom'), ('dict', 'val')):
+          oldarr = st.heap[key]
+          newarr = fresh('HO_%s_%s' % key, oldarr.sort())
+          st.heap[key] = newarr
+          st.axiom(z3.ForAll([r], z3.Implies(z3.Not(inside), z3.Select(newarr, r) == z3.Select(oldarr, r))))
+          if key == ('list', 'len'):
+            st.axiom(z3.ForAll([r], z3.Select(newarr, r) >= 0))
+        continue
       if p.startswith('list(') or p.startswith('dict('):
         which = p[:4]
         ref = self.eval_spec_value(st, p[5:-1], env)
@@ -83,14 +101,32 @@ class SpecMixin(object):
           kl = self.dict_keys(st, ref)
           for key in (('list', 'len'), ('list', 'items')):
             arr = st.harr(key, z3.IntSort() if key[1] == 'len' else z3.ArraySort(z3.IntSort(), Val))
-            st.heap[key] = z3.Store(arr, kl.t, fresh('hv', arr.sort().range()))
+            st.heap[key] = z3.Store(arr, kl.t, z3.If(ref.t == 0, z3.Select(arr, kl.t), fresh('hv', arr.sort().range())))
+        hvs = {}
         for key in keys:
           srt = {'len': z3.IntSort(), 'items': z3.ArraySort(z3.IntSort(), Val), 'dom': z3.ArraySort(Val, z3.BoolSort()),
                  'val': z3.ArraySort(Val, Val)}[key[1]]
           arr = st.harr(key, srt)
-          st.heap[key] = z3.Store(arr, ref.t, fresh('hv', srt))
+          # (a container expression that is None denotes no container: nothing is modified)
+          hv = fresh('hv', srt)
+          hvs[key[1]] = hv
+          self.__dict__.setdefault('_havoc_fresh', []).append(hv)
+          st.heap[key] = z3.Store(arr, ref.t, z3.If(ref.t == 0, z3.Select(arr, ref.t), hv))
         if which == 'list':
           st.assume(self.list_len(st, ref) >= 0)
+          ek = getattr(ref, 'elem', None)
+          if ek is not None and ek.tag != 'val':
+            # the declared element kind is a shape invariant of the list: it holds for the new contents as well
+            i = z3.Int('sh_i')
+            sub = st.fork()
+            base = len(sub.pc)
+            try:
+              self.from_val(sub, z3.Select(hvs['items'], i), ek)
+              facts = [c for c in sub.pc[base:] if 'sh_i' in c.sexpr()]
+              if facts:
+                st.axiom(z3.ForAll([i], z3.Implies(z3.And(i >= 0, i < hvs['len']), z3.And(*facts))))
+            except Unsupported:
+              pass
         continue
       head, field = p.rsplit('.', 1)
       owner = None
@@ -115,7 +151,10 @@ class SpecMixin(object):
         continue
       key = (fk[0], field)
       arr = st.harr(key, fk[1].sort())
-      st.heap[key] = z3.Store(arr, obj.t, fresh('hv_' + field, fk[1].sort()))
+      hv = fresh('hv_' + field, fk[1].sort())
+      if fk[1].tag in ('ref', 'exc', 'list', 'dict', 'set', 'tuple', 'val'):
+        self.__dict__.setdefault('_havoc_fresh', []).append(hv)
+      st.heap[key] = z3.Store(arr, obj.t, hv)
 
   def heap_changed_keys(self, before, after):
     out = []
@@ -134,6 +173,9 @@ class SpecMixin(object):
       if p in ('list', 'dict'):
         ok.update(k for k in [('list', 'len'), ('list', 'items'), ('dict', 'dom'), ('dict', 'val'), ('dict', 'keys')]
                   if k[0] == p or p == 'dict')
+        continue
+      if p.startswith('owned('):
+        ok.update([('list', 'len'), ('list', 'items'), ('dict', 'dom'), ('dict', 'val')])
         continue
       if p.startswith('list('):
         ok.update([('list', 'len'), ('list', 'items')])
@@ -169,7 +211,10 @@ class SpecMixin(object):
       kind = spec['vars'].get(n)
       if n in st.env or kind is not None:
         st.env[n] = self.havoc_value(st, st.env.get(n), n, parse_kind(kind) if kind else None)
+    before = dict(st.heap)
+    self._havoc_fresh = []
     self.havoc_heap(st, spec['modifies'])
+    self.fresh_slice_after_havoc(st, before)
     # ghost variables may be advanced by contracted callees / trusted models inside the body; the ones the contract
     # under verification declares const are specification inputs nothing changes
     const = getattr(self.unit_contract, 'ghost_const', ())
@@ -184,6 +229,44 @@ class SpecMixin(object):
         st.ghost[g] = VStr(fresh('hv_ghost_' + g, z3.StringSort()))
       elif isinstance(v, VBool):
         st.ghost[g] = VBool(fresh('hv_ghost_' + g, z3.BoolSort()))
+
+  LOOP_SLICE = 50000
+
+  def fresh_slice_after_havoc(self, st, before):
+    """Objects the iteration about to be executed allocates are distinct from everything reachable at the loop head
+    (including what earlier iterations allocated): the iteration allocates from a new slice of ids, and no reference
+    held in a havocked array points into that slice."""
+    lo = st.next_oid + self.LOOP_SLICE
+    hi = lo + self.LOOP_SLICE
+    r, i = z3.Int('ls_r'), z3.Int('ls_i')
+    outside = lambda t: z3.Or(t < lo, t >= hi)
+    # the fresh constants themselves (patterns over them survive the array rewriter, unlike Select(Store(..)))
+    for hv in self.__dict__.get('_havoc_fresh', []):
+      if hv.sort() == z3.IntSort():
+        st.axiom(outside(hv))
+      elif hv.sort() == Val:
+        st.axiom(z3.Implies(Val.is_VR(hv), outside(Val.r(hv))))
+      elif hv.sort() == z3.ArraySort(z3.IntSort(), Val):
+        st.axiom(z3.ForAll([i], z3.Implies(Val.is_VR(z3.Select(hv, i)), outside(Val.r(z3.Select(hv, i))))))
+      elif hv.sort() == z3.ArraySort(Val, Val):
+        k = z3.Const('ls_k', Val)
+        st.axiom(z3.ForAll([k], z3.Implies(Val.is_VR(z3.Select(hv, k)), outside(Val.r(z3.Select(hv, k))))))
+    self._havoc_fresh = []
+    for key, arr in st.heap.items():
+      old = before.get(key)
+      if old is not None and old.eq(arr):
+        continue
+      rng = arr.sort().range()
+      if rng == z3.IntSort() and key[1] not in ('len',):
+        kind = self.ctx.registry.fields.get(key)
+        if key == ('dict', 'keys') or (kind is not None and kind.tag in ('ref', 'exc', 'list', 'dict', 'set', 'tuple')):
+          st.axiom(z3.ForAll([r], outside(z3.Select(arr, r))))
+      elif rng == Val:
+        st.axiom(z3.ForAll([r], z3.Implies(Val.is_VR(z3.Select(arr, r)), outside(Val.r(z3.Select(arr, r))))))
+      elif key == ('list', 'items'):
+        el = z3.Select(z3.Select(arr, r), i)
+        st.axiom(z3.ForAll([r, i], z3.Implies(Val.is_VR(el), outside(Val.r(el)))))
+    st.next_oid = lo
 
   def for_with_invariant(self, st, stmt, it, spec):
     label = self.loop_key(stmt)
@@ -281,7 +364,11 @@ class SpecMixin(object):
     allowed = self.allowed_keys(after, spec['modifies'])
     if allowed is None:
       return
+    containers = self.container_exempt(before.fork(), spec['modifies'])
     for key in self.heap_changed_keys(before, after):
+      if key in allowed and key[0] in ('list', 'dict') and containers is not None:
+        self.container_frame_obligation(before, after, key, containers, before.next_oid,
+                                        '%s/loop-frame.%s.%s@%s' % (self.ctx.unit, key[0], key[1], label), label)
       if key not in allowed:
         # writes to objects allocated inside the iteration are invisible outside it
         old = before.heap.get(key)
@@ -430,7 +517,24 @@ class SpecMixin(object):
       def with_iter(s2, it):
         seq = self.concrete_iter(s2, it)
         if seq is None:
-          raise Unsupported('comprehension over symbolic iterable: %s' % ast.unparse(e)[:60])
+          bound = getattr(self.ctx, 'bounded_lists', None)
+          if bound is None or self.spec_mode:
+            raise Unsupported('comprehension over symbolic iterable: %s' % ast.unparse(e)[:60])
+          # BOUNDED stand-in (see bounded_for): every length 0..bound of the symbolic iterable
+          lst, elem_of = self.iter_as_list(s2, it)
+          n = self.list_len(s2, lst)
+          self.ctx.bounded_notes = getattr(self.ctx, 'bounded_notes', [])
+          self.ctx.bounded_notes.append('comprehension `%s`: sequences of length <= %d only' % (ast.unparse(e)[:50], bound))
+          outs = []
+          for k in range(bound + 1):
+            sk_ = s2.fork()
+            sk_.assume(n == k)
+            if self.feasible(sk_):
+              outs.extend(run_over(sk_, [elem_of(sk_, z3.IntVal(j)) for j in range(k)]))
+          return outs
+        return run_over(s2, seq)
+
+      def run_over(s2, seq):
         results = [(s2, [])]
         for x in seq:
           nxt = []
@@ -542,6 +646,77 @@ class SpecMixin(object):
     if universal:
       return z3.ForAll([i], z3.Implies(z3.And(guard, *conds), body))
     return z3.Exists([i], z3.And(guard, *(conds + [body])))
+
+  def fold_with_exceptions(self, st, gen, universal):
+    """any()/all() in executed code over a symbolic sequence whose (otherwise pure) predicate may raise: Python stops at
+    the first element that decides the result or raises.  With R(i) / A(i) the raise / truth predicates of element i:
+      all: True  iff forall i. !R(i) & A(i);  False iff exists j. !R(j) & !A(j) & forall i<j. !R(i) & A(i);
+           raises iff exists j. R(j) & forall i<j. !R(i) & A(i)            (any: with A negated)
+    Returns None when the predicate cannot raise (the plain quantifier applies)."""
+    node = gen.node
+    if len(node.generators) != 1 or node.generators[0].ifs:
+      return None
+    g = node.generators[0]
+    s = st.fork()
+    s.env = dict(gen.env)
+    rs = self.eval(s, g.iter)
+    if len(rs) != 1 or isinstance(rs[0][1], Raised):
+      return None
+    s, it = rs[0]
+    base_pc = len(s.pc)
+    seq, elem_of = self.iter_as_list(s, it)
+    n = self.list_len(s, seq)
+    i = fresh('q', z3.IntSort())
+    s2 = s.fork()
+    base = len(s2.pc)
+    for _s, _c in self.assign(s2, g.target, elem_of(s2, i)):
+      pass
+    shape = list(s2.pc[base:])
+    s2.assume(z3.And(i >= 0, i < n))          # the element exists: safety obligations inside the predicate see the range
+    body_base = len(s2.pc)
+    raising, truth, exc_cls = [], [], None
+    for s3, v in self.eval(s2, node.elt):
+      guards, axioms = s3.split_delta(body_base)
+      for a in axioms:
+        if str(i) in a.sexpr():
+          st.axiom(z3.ForAll([i], z3.Implies(z3.And(i >= 0, i < n), a)))
+        elif a.get_id() not in st.ax:
+          st.axiom(a)
+      if isinstance(v, Raised):
+        raising.append(z3.And(*guards) if guards else z3.BoolVal(True))
+        exc_cls = self.exc_class_of(v.exc)
+        continue
+      for s4, b in self.truth(s3, v):
+        g4, _ = s4.split_delta(body_base)
+        truth.append(z3.And(*(g4 + [b])))
+    if not raising:
+      return None
+    for c in s.pc[base_pc:]:
+      st.axiom(c) if c.get_id() in s.ax else st.assume(c)
+    for a in shape:
+      if str(i) in a.sexpr():
+        st.axiom(z3.ForAll([i], z3.Implies(z3.And(i >= 0, i < n), a)))
+    R = z3.Or(*raising)
+    A = z3.Or(*truth) if truth else z3.BoolVal(False)
+    if not universal:
+      A = z3.Not(A)            # `any` keeps going while the predicate is false
+    at = lambda term, k: z3.substitute(term, (i, k))
+    go_on = lambda k: z3.And(z3.Not(at(R, k)), at(A, k))
+    out = []
+    s_all = st.fork()
+    s_all.assume(z3.ForAll([i], z3.Implies(z3.And(i >= 0, i < n), go_on(i))))
+    out.append((s_all, VBool(universal)))
+    j = fresh('first', z3.IntSort())
+    s_stop = st.fork()
+    s_stop.assume(z3.And(j >= 0, j < n, z3.Not(at(R, j)), z3.Not(at(A, j)),
+                         z3.ForAll([i], z3.Implies(z3.And(i >= 0, i < j), go_on(i)))))
+    out.append((s_stop, VBool(not universal)))
+    j2 = fresh('first', z3.IntSort())
+    s_exc = st
+    s_exc.assume(z3.And(j2 >= 0, j2 < n, at(R, j2), z3.ForAll([i], z3.Implies(z3.And(i >= 0, i < j2), go_on(i)))))
+    cname = exc_cls.name if hasattr(exc_cls, 'name') else (exc_cls if isinstance(exc_cls, str) else 'Exception')
+    out.append((s_exc, Raised(self.make_exception(s_exc, cname.replace('exc:', ''), exact=False))))
+    return [(x, v) for x, v in out if self.feasible(x)]
 
   def eval_merged_bool(self, st, expr):
     """Evaluate expr to a single z3 Bool, merging forks (used under quantifiers / in assumptions)."""
